@@ -1123,6 +1123,22 @@ func main() {
 		in.Kind = kindCustom
 		in.CustomV, in.CustomR, in.CustomS = "28", "5", "6"
 		rn.run(in)
+		// wave 6: chain ids above 2^53 up to the largest int64 (theorem C01_wire_format_no_size_guard is for
+		// 0 <= chain < 2^63): a 27/28 answer with 32-byte R, S; judged in Coq against the specification
+		// (codes 10/11 of the SCustom branch) and against the model; V' = V + 2*chain + 8 is a 9-byte scalar
+		// from 2^64 on (2*chain+35 = 2^63-1 at chain 2^62-18: where an int64 V would overflow)
+		for ci, c := range []int64{1<<53 + 1, 1 << 61, 1<<62 - 18, 1<<62 - 17, 1 << 62, 1<<63 - 1} {
+			in = baseInput(mode, c, stdKey, "chain id above 2^53 (arbitrary signer, judged against the specification)")
+			in.Kind = kindCustom
+			in.CustomV = []string{"27", "28"}[(ci+mode)%2]
+			in.CustomR = new(big.Int).SetBytes(r.Bytes(32)).String()
+			in.CustomS = new(big.Int).SetBytes(r.Bytes(32)).String()
+			if ci%3 == 2 {
+				in.To = nil
+				in.Data = &jsonDSL{RepB: 0x80, RepN: 60}
+			}
+			rn.run(in)
+		}
 		in = baseInput(mode, 5, stdKey, "negative fields (outside the quantifier)")
 		in.Kind = kindCustom
 		in.CustomV, in.CustomR, in.CustomS = "28", "5", "6"
